@@ -30,7 +30,7 @@ def demo_cmd(path):
         if piece.startswith('$ '):
             piece = piece[2:]
         if not on:
-            if re.match(r'(gcc|cc|clang)\b', piece):
+            if re.match(r'((\w+=\S+;?\s+)*)(gcc|cc|clang)\b', piece):
                 on = True
             else:
                 continue
@@ -63,7 +63,9 @@ def main():
         res['tests_fail_with_change'] = int(f.group(1)) if f else -1
         cmd = demo_cmd(os.path.join(d, 'demo.c'))
         res['demo_cmd'] = cmd
-        rc, out = sh(cmd, cwd=d, timeout=1200)
+        dcwd = wt if (sub + '/' + name + '/demo.c') in cmd and ('/' + sub + '/' + name + '/demo.c') not in cmd.replace(' ' + sub + '/', ' /X/') else d   # command written relative to the worktree root
+        res['demo_cwd'] = dcwd
+        rc, out = sh(cmd, cwd=dcwd, timeout=1200)
         res['demo_rc_with_change'] = rc
         res['demo_out_with_change'] = out[-600:]
         t0 = time.time()
@@ -86,7 +88,7 @@ def main():
     sh([sys.executable, os.path.join(VERIF, 'tools', 'regen_all.py')], cwd=VERIF)
     if saved_evidence is not None:
         open(evid, 'w').write(saved_evidence)
-    rc, out = sh(res.get('demo_cmd', 'false'), cwd=d, timeout=1200)
+    rc, out = sh(res.get('demo_cmd', 'false'), cwd=res.get('demo_cwd', d), timeout=1200)
     res['demo_rc_pristine'] = rc
     ok = res.get('tests_pass_with_change') == 17 and res.get('tests_fail_with_change') == 0 and res.get('demo_rc_with_change', 0) != 0 and rc == 0
     res['confirmed'] = ok
